@@ -903,3 +903,74 @@ func inFiles(p *Program, pkg string, files ...string) func(fn *ssa.Function) boo
 		return false
 	}
 }
+
+// ruleCursorAdvance: a loop-carried integer that is used as the low bound of a slice of a byte
+// buffer inside the loop (a read cursor) must be advanced on every path around the loop: a back
+// edge that carries the cursor unchanged makes the next element be cut from the previous
+// element's position.
+func ruleCursorAdvance(p *Program, r *Report, sel func(fn *ssa.Function) bool) {
+	var fns []*ssa.Function
+	for fn := range allFuncs(p) {
+		if fn.Blocks != nil && sel(fn) {
+			fns = append(fns, fn)
+		}
+	}
+	sort.Slice(fns, func(i, j int) bool { return fullFuncName(fns[i]) < fullFuncName(fns[j]) })
+	n := 0
+	for _, fn := range fns {
+		f := p.facts(fn, defaultRejectMode(fn))
+		for _, b := range fn.Blocks {
+			body, isHeader := f.loops[b]
+			if !isHeader {
+				continue
+			}
+			for _, in := range b.Instrs {
+				ph, ok := in.(*ssa.Phi)
+				if !ok {
+					break
+				}
+				if bt, ok := ph.Type().Underlying().(*types.Basic); !ok || bt.Info()&types.IsInteger == 0 {
+					continue
+				}
+				// used as Low of a Slice of []byte inside the loop?
+				var use *ssa.Slice
+				for _, ref := range *ph.Referrers() {
+					if sl, ok := ref.(*ssa.Slice); ok && sl.Low == ssa.Value(ph) && body[sl.Block()] {
+						if st, ok := sl.X.Type().Underlying().(*types.Slice); ok {
+							if eb, ok := st.Elem().Underlying().(*types.Basic); ok && eb.Kind() == types.Uint8 {
+								use = sl
+							}
+						}
+					}
+				}
+				if use == nil {
+					continue
+				}
+				// does the cursor change at all in the loop (is it a cursor)?
+				changes, stale := false, false
+				for i, e := range ph.Edges {
+					if !body[b.Preds[i]] {
+						continue
+					}
+					if e == ssa.Value(ph) {
+						stale = true
+					} else {
+						changes = true
+					}
+				}
+				if !changes {
+					continue
+				}
+				n++
+				c := f.c
+				cons := fmt.Sprintf("%s :: cursor %s into %s", short(fullFuncName(fn)), c.term(ph), c.term(use.X))
+				if stale {
+					r.fail("cursor-advance", cons, p.pos(use.Pos()), "some path around the loop leaves the read cursor unchanged, so the next element is sliced from the previous element's offset")
+				} else {
+					r.pass("cursor-advance", cons, p.pos(use.Pos()), "advanced on every path around the loop")
+				}
+			}
+		}
+	}
+	r.Analysed["cursor_loops"] += n
+}
